@@ -108,6 +108,47 @@ class LogicalStore(ValueStore):
         return f"LogicalStore({self.idx})"
 
 
+class AliasStore(ValueStore):
+    """A second store object over the same underlying storage as `target` (like two FileStores with
+    one path); operations are logged under its own index."""
+
+    __slots__ = ("world", "idx", "target")
+
+    def __init__(self, world, idx, target):
+        self.world = world
+        self.idx = idx
+        self.target = target
+
+    value = property(lambda self: self.target.value)
+    time = property(lambda self: self.target.time)
+    normalising = property(lambda self: self.target.normalising)
+
+    def read(self):
+        w = self.world
+        w.op_begin("rd", self.idx)
+        try:
+            if self.target.value is Missing:
+                raise KeyError(f"store {self.idx} (alias of {self.target.idx}) is empty")
+            v = self.target.value
+        except BaseException as e:
+            w.op_fail("rd", self.idx, e)
+            raise
+        w.op_end("rd", self.idx)
+        return R(v) if self.target.normalising else v
+
+    def write(self, value):
+        raise AssertionError("a source store is never written by uberjob")
+
+    def get_modified_time(self):
+        w = self.world
+        w.op_begin("mt", self.idx)
+        w.op_end("mt", self.idx)
+        return tick_to_dt(self.target.time)
+
+    def __repr__(self):
+        return f"AliasStore({self.idx}->{self.target.idx})"
+
+
 class World:
     def __init__(self, spec, registry=True, pause=None, normalising=True, tz_aware=False):
         self.spec = spec
@@ -147,6 +188,7 @@ class World:
         self.fns = {}
         self.argrefs = {}
         self.gather_count = 0
+        late = []
         for i, nd in enumerate(spec["nodes"]):
             k = nd["k"]
             with plan.scope(*nd.get("scope", [])):
@@ -168,7 +210,10 @@ class World:
                 elif k == "lit":
                     node = plan.lit(specs_const(nd["v"]))
                 elif k == "src":
-                    store = self.new_store(i)
+                    if nd.get("alias"):
+                        store = AliasStore(self, i, self.stores[nd["deps"][0]["n"]])
+                    else:
+                        store = self.new_store(i)
                     self.stores[i] = store
                     node = self.registry.source(plan, store)
                 elif k == "unpack":
@@ -184,12 +229,17 @@ class World:
                 else:
                     raise ValueError(k)
             self.nodes.append(node)
-            for r in nd.get("deps", []):
+            for r in list(nd.get("deps", [])) + list(nd.get("xdeps", [])):
                 plan.add_dependency(self.node_of(r), node)
             if nd.get("stored") and self.registry is not None and k in ("call", "lit"):
                 store = self.new_store(i)
                 self.stores[i] = store
-                self.registry.add(node, store)
+                if nd.get("late") is not None:
+                    late.append((nd["late"], i))
+                else:
+                    self.registry.add(node, store)
+        for _, i in sorted(late):
+            self.registry.add(self.nodes[i], self.stores[i])
         for fr, to in spec.get("back", []):
             plan.add_dependency(self.node_of(fr), self.node_of(to))
         self.index_of = {}
@@ -397,7 +447,7 @@ class World:
 
     def init_sources(self):
         for i, nd in enumerate(self.spec["nodes"]):
-            if nd["k"] == "src" and not nd["deps"] and i in self.stores:
+            if specs.src_kind(nd) == "pure" and i in self.stores:
                 self.set_source(i)
 
     def delete(self, i):
@@ -410,7 +460,8 @@ class World:
 
     def snapshot(self):
         return {"clock": self.clock, "src_version": dict(self.src_version),
-                "stores": {i: (s.value, s.time) for i, s in self.stores.items()}}
+                "stores": {i: (s.value, s.time) for i, s in self.stores.items()
+                           if not isinstance(s, AliasStore)}}
 
     def restore(self, snap):
         self.clock = snap["clock"]
